@@ -19,7 +19,7 @@ ASSUMPTIONS = ["reference model + pinned layout snapshot (layout/tpm20_layout.js
                "the definition of 'what the layout tables dictate'",
                "generator self-check: serialised tree items == reference decode items on every run",
                "pinned text forms (layout/tpm20_textforms.json) of valid values; attribute words and response codes are not pinned"]
-TIERS = {"quick": {"runs": 40000, "budget": 75}, "thorough": {"runs": 600000, "budget": 780}}
+TIERS = {"quick": {"runs": 40000, "budget": 150}, "thorough": {"runs": 600000, "budget": 780}}
 
 
 def make_case(i, rng, tier):
